@@ -57,7 +57,9 @@ Succ(x, op, blocks, orig, mlb, addb) ==
     [] op = "activate_add" -> keep(Glob(x, x.g, TRUE, TRUE))
     [] op = "remove" -> LET y == Glob(x, FALSE, FALSE, FALSE) IN IF RemoveOK(orig, y) THEN keep(y) ELSE {}
     [] op = "new" -> keep(x)          \* constructing a manager asks for nothing yet
-    [] op = "enter" -> keep([x EXCEPT !.open = Append(x.open, <<x.g, x.m>>)])      \* what is in force ON ENTRY is what leaving restores
+    \* enter_t: a manager built with an explicit threshold (SUSPICIOUS: still below the flagged probe, so whether the code
+    \* honours the parameter or ignores it, the probe is refused inside and leaving restores what was in force on entry)
+    [] op \in {"enter", "enter_t"} -> keep([x EXCEPT !.open = Append(x.open, <<x.g, x.m>>)])      \* what is in force ON ENTRY is what leaving restores
     [] op \in {"exit", "exit_exc"} -> UNION {keep(y) : y \in ExitSucc(x, blocks)}
     [] OTHER -> {}
 
